@@ -170,9 +170,14 @@ def obj_len(ex, st, o, v):
     return r[0][1]
 
 
+def _heap_items(st):
+    from .engine import LAZY_HEAP
+    return list(st.heap.items()) + list(LAZY_HEAP.items())
+
+
 def obj_iter(ex, st, v):
     # GenomicArray.__iter__ = self.data.itertuples(index=False)
-    for ref_addr, hv in st.heap.items():
+    for ref_addr, hv in _heap_items(st):
         if hv is v:
             r = _dunder(ex, st, Ref(ref_addr), v, "__iter__", [])
             if len(r) != 1:
@@ -182,7 +187,7 @@ def obj_iter(ex, st, v):
 
 
 def obj_contains(ex, st, v, item):
-    for ref_addr, hv in st.heap.items():
+    for ref_addr, hv in _heap_items(st):
         if hv is v:
             r = _dunder(ex, st, Ref(ref_addr), v, "__contains__", [item])
             if len(r) != 1:
